@@ -37,4 +37,3 @@ func vfRefAny(patterns []string, name string) bool {
 	}
 	return false
 }
-
